@@ -233,8 +233,13 @@ def run_history(built, acts, structured, record=False):
                     k = min(max(1, k), K)
                     if how == "errno":
                         cand = [o["n"] for o in ops0 if o["n"] >= k and o["kind"] in ("openw", "write", "rename")]
+                        if not cand:
+                            cand = [o["n"] for o in ops0 if o["kind"] in ("openw", "write", "rename")][-1:]
+                        # the fault model is "an I/O failure while creating, writing or moving a file into place": when this run
+                        # performs no such operation (nothing to insert, range exhausted) it simply runs without a fault - an
+                        # error on *reading* the lock would make the tool fall back to scanning, which C16 allows and C02 does not cover
+                        rules = ("n=%d,act=errno:%d" % (cand[0], fault.ERRNO[arg])) if cand else None
                         k = cand[0] if cand else k
-                        rules = "n=%d,act=errno:%d" % (k, fault.ERRNO[arg])
                     elif how == "epipe":
                         cand = [o["n"] for o in ops0 if o["n"] >= k and o["kind"] == "stdio"] or [o["n"] for o in ops0 if o["kind"] == "stdio"][-1:]
                         k = cand[0] if cand else k
